@@ -2042,8 +2042,13 @@ impl OutstationSession {
                     series.ecsn.increment();
                     let (response, next) =
                         self.format_read_response(database, false, series.ecsn, Iin2::default());
-                    self.write_solicited(io, writer, respond_to, response, database)
+                    let response = self
+                        .write_solicited(io, writer, respond_to, response, database)
                         .await?;
+                    // a repeat of the request is answered with the fragment that awaits confirmation
+                    if let Some(last) = &mut self.state.last_valid_request {
+                        last.response = Some(response);
+                    }
                     match next {
                         None => return Ok(()),
                         Some(next) => {
